@@ -218,6 +218,7 @@ def run(ctx):
         return " ".join(head + ["[%s,%s]" % (lo, hi)])
 
     cmodel = [canon_model(i, m) for i, m in enumerate(model)] if len(model) == len(ops) else model
+    exact_pred = sum(1 for o, m in zip(ops, model) if o[0] != "secs" and len(m.split()) >= 3 and m.split()[-1] == m.split()[-2] != "-")
     float_carry = sum(1 for m in cmodel if m.endswith("#carry"))
     cmodel = [m[:-7] if m.endswith(" #carry") else m for m in cmodel]
     dis = c.diff_streams(ctx, "certGenHandler/role/aws validity windows and uint64(Duration.Seconds()) vs KM.Validity",
@@ -257,7 +258,7 @@ def run(ctx):
                 "whose validity window was decoded and judged",
         "branch_histogram": hist, "status_histogram": statuses, "op_kinds": kinds,
         "judged": len(jops), "judged_failures": len(ctx.violations), "needed_clock_slack": slack_used,
-        "disagreements": len(dis),
+        "disagreements": len(dis), "issued_lifetime_predicted_exactly": exact_pred,
         "generated_shape": facts.get("c03", {}).get("shape"),
         "constants": {k: facts.get("c03", {}).get(k) for k in ("maxCertificateLifetime", "maxRoleRequestingCertDuration", "awsTemplateLifetime")},
         "samples": [{"op": lines[i], "impl": impl[i], "model": model[i] if i < len(model) else None}
